@@ -152,7 +152,9 @@ func SliceDom(n int) Dom[[]int] {
 }
 
 // AnyDom: mode 0 = ints only, 1 = strings only, 2 = mixed dynamic types
-// (int, string, bool, nil) for which no natural order is asserted.
+// (int, string, bool, nil) for which no natural order is asserted, 3 = like 2
+// plus the same small numbers as int64, uint8 and float64: equal in value,
+// different as values of type `any` (searching must tell them apart).
 func AnyDom(mode, n int) Dom[any] {
 	d := Dom[any]{Name: fmt.Sprintf("any/%d/%d", mode, n)}
 	d.Gen = func(r *core.Rng) any {
@@ -162,6 +164,17 @@ func AnyDom(mode, n int) Dom[any] {
 		case 1:
 			return letters[r.Intn(min(n, len(letters)))]
 		default:
+			if mode == 3 && r.Chance(1, 2) {
+				k := r.Intn(n)
+				switch r.Intn(3) {
+				case 0:
+					return int64(k)
+				case 1:
+					return uint8(k)
+				default:
+					return float64(k)
+				}
+			}
 			switch r.Intn(4) {
 			case 0:
 				return r.Intn(n)
